@@ -145,6 +145,11 @@ class Path:
     self.trail = []          # (chosen, n_options)
     self.solver = z3.Solver()
     self.solver.set('timeout', explorer.branch_timeout_ms)
+    if not explorer.branch_mbqi:
+      # feasibility checks at forks only need "maybe feasible": without
+      # model-based quantifier instantiation z3 answers `unknown` quickly
+      # (= explore the branch); goals are checked with mbqi on (check_goal)
+      self.solver.set('smt.mbqi', False)
     self.pc = []
     self.events = []
     self.held = []           # lock stack for GUARDED obligations
@@ -296,7 +301,8 @@ class Explorer:
   """Enumerates all paths of `body(path)` and collects obligation results."""
 
   def __init__(self, max_paths=4000, max_depth=400, branch_timeout_ms=4000,
-               goal_timeout_ms=8000):
+               goal_timeout_ms=8000, branch_mbqi=True):
+    self.branch_mbqi = branch_mbqi
     self.max_paths = max_paths
     self.max_depth = max_depth
     self.branch_timeout_ms = branch_timeout_ms
@@ -361,6 +367,8 @@ class Explorer:
     s = path.solver
     s.push()
     s.set('timeout', self.goal_timeout_ms)
+    if not self.branch_mbqi:
+      s.set('smt.mbqi', True)
     s.add(z3.Not(goal))
     r = s.check()
     model = safe_model(s) if r == z3.sat else None
@@ -374,6 +382,8 @@ class Explorer:
           model = model2
     s.pop()
     s.set('timeout', self.branch_timeout_ms)
+    if not self.branch_mbqi:
+      s.set('smt.mbqi', False)
     dt = time.time() - t0
     self.solver_s += dt
     status = 'proved' if r == z3.unsat else ('failed' if r == z3.sat else 'unknown')
@@ -1934,12 +1944,20 @@ class Interp:
         zv = self.to_z3(v)
     finally:
       self.path.no_fork -= 1
+    wrap, unwrap = lift, self.to_z3
     if zv is None:
-      raise Unsupported('map comprehension element is not a scalar')
+      rv = self.resolve(v)
+      if isinstance(rv, SObj) and rv.ghost.get('id') is not None:
+        # abstract references (pyvc/absobj.py): the sequence holds their ids
+        from . import absobj
+        zv, cls, lazy = rv.ghost['id'], rv.cls, rv.lazy
+        wrap, unwrap = (lambda z: absobj.ref(cls, z, lazy)), absobj.ref_id
+      else:
+        raise Unsupported('map comprehension element is not a scalar')
     arr = z3.Array(fresh_name('map'), z3.IntSort(), zv.sort())
     self.path.assume(z3.ForAll([j], z3.Implies(z3.And(j >= 0, j < n),
                                                z3.Select(arr, j) == zv)), check=False)
-    return SSeq(arr, z3.simplify(n), lift, self.to_z3, 'list', zv.sort())
+    return SSeq(arr, z3.simplify(n), wrap, unwrap, 'list', zv.sort())
 
   def ex_GeneratorExp(self, e, frame):
     return self._comp(e, frame, lambda f: self.eval(e.elt, f))
